@@ -271,7 +271,7 @@ pub fn run(ctx: &RunCtx) -> i32 {
         }
         let mut paths = path_set(&env.model);
         let n_exh = paths.len();
-        paths.extend(random_paths(ctx.tier.pick(4000, 150_000), ctx.seed, &env.model));
+        paths.extend(random_paths(ctx.tier.pick(4000, 600_000), ctx.seed, &env.model));
         let uni: Vec<String> = paths.iter().take(n_exh).map(|(p, _)| p.clone()).filter(|p| !p.is_empty()).collect();
         let others = ["/a.txt", "/newdest", "/ab/newdest", "/dir", "/ab/c.txt/x", ""];
         for (i, (p, class)) in paths.iter().enumerate() {
@@ -291,7 +291,7 @@ pub fn run(ctx: &RunCtx) -> i32 {
                     continue;
                 }
                 // only copy/move into the own subtree is excluded (documented non-termination)
-                if let (Op::CopyDir(s, d) | Op::MoveDir(s, d)) = &op {
+                if let Op::CopyDir(s, d) | Op::MoveDir(s, d) = &op {
                     if is_within(d, s) {
                         continue;
                     }
@@ -345,7 +345,7 @@ pub fn panic_sweep() -> Result<u64, Failure> {
         let mut ops = observer_ops(p);
         ops.extend(mutator_ops(p, others[i % others.len()]));
         for op in ops {
-            if let (Op::CopyDir(s, d) | Op::MoveDir(s, d)) = &op {
+            if let Op::CopyDir(s, d) | Op::MoveDir(s, d) = &op {
                 if is_within(d, s) {
                     continue;
                 }
